@@ -118,27 +118,47 @@ func main() {
 				named[c.Value] = c.Name
 			}
 		}
-		// an enum is treated as a bitmask when the generated code says so (the scan's syntactic
-		// heuristic) or when it behaves like one (two defined single-bit flags OR-ed render as
-		// their names joined by " | "): a re-implementation of the rendering must not turn the
-		// ordinary-enum expectations loose on a bitmask
-		isBitmask := e.Bitmask
-		bitmaskEnum := false
-		defer func() { _ = bitmaskEnum }()
-		if !isBitmask {
-			var single []enumreg.Const
-			for _, c := range e.Consts {
-				if c.Value != 0 && c.Value&(c.Value-1) == 0 {
-					single = append(single, c)
-				}
-			}
-			sort.Slice(single, func(a, b int) bool { return single[a].Value < single[b].Value })
-			if len(single) >= 2 {
-				if txt, err := e.Marshal(single[0].Value | single[1].Value); err == nil && strings.Contains(txt, " | ") {
-					isBitmask = true
-				}
+		// Bitmask or ordinary enum is decided by behaviour alone (the shape of the generated source
+		// - one file per enum, which helper builds the text - is not relied upon):
+		//  * two defined single-bit flags whose union is not itself a defined constant render,
+		//    OR-ed, as text containing " | "  => bitmask;
+		//  * otherwise an undefined value that is not a union of defined flags renders as its
+		//    decimal number => ordinary; if it does not => bitmask (enums with a single flag).
+		defined := map[uint64]bool{}
+		var single []enumreg.Const
+		var allFlags uint64
+		for _, c := range e.Consts {
+			defined[c.Value] = true
+			if c.Value != 0 && c.Value&(c.Value-1) == 0 {
+				single = append(single, c)
+				allFlags |= c.Value
 			}
 		}
+		sort.Slice(single, func(a, b int) bool { return single[a].Value < single[b].Value })
+		isBitmask, decided := false, false
+		for a := 0; a < len(single) && !decided; a++ {
+			for b := a + 1; b < len(single) && !decided; b++ {
+				u := single[a].Value | single[b].Value
+				if defined[u] {
+					continue
+				}
+				txt, err := e.Marshal(u)
+				isBitmask, decided = err == nil && strings.Contains(txt, " | "), true
+			}
+		}
+		if !decided {
+			// the smallest positive value that is neither defined nor made of defined flags only
+			for u := uint64(1); u < 1<<20; u++ {
+				if defined[u] || u&^allFlags == 0 {
+					continue
+				}
+				txt, err := e.Marshal(u)
+				isBitmask = !(err == nil && txt == strconv.FormatUint(u, 10))
+				break
+			}
+		}
+		bitmaskEnum := false
+		defer func() { _ = bitmaskEnum }()
 		bitmaskEnum = isBitmask
 		if isBitmask {
 			// flags = constants with exactly one bit set; (multi-bit constants are combinations)
